@@ -82,6 +82,10 @@ func (e *ordEval) sides(x, y ssa.Value) (swapped, ok bool) {
 	if e.isB(x) && e.isA(y) {
 		return true, true
 	}
+	// a variable read through a cell (inside a local predicate: through its free variable): what it holds
+	if rx, ry := resolveLoad(x), resolveLoad(y); rx != x || ry != y {
+		return e.sides(rx, ry)
+	}
 	return false, false
 }
 
@@ -127,7 +131,7 @@ func (e *ordEval) eval(v ssa.Value, pred *ssa.BasicBlock, depth int) tri {
 		}
 		if x.Op == token.MUL {
 			// a result spilled through a local cell (named results, defers)
-			if s := loadedValue(x); s != nil {
+			if s := resolveLoad(x); s != ssa.Value(x) {
 				return e.eval(s, pred, depth+1)
 			}
 		}
@@ -161,6 +165,11 @@ func (e *ordEval) eval(v ssa.Value, pred *ssa.BasicBlock, depth int) tri {
 			}
 		}
 	case *ssa.Call:
+		if depth < 8 {
+			if t := evalPredicateCall(x, func(v ssa.Value, p *ssa.BasicBlock) tri { return e.eval(v, p, depth+1) }); t != triUnknown {
+				return t
+			}
+		}
 		args := callArgs(x)
 		if len(args) == 2 {
 			if sw, ok := e.sides(args[0], args[1]); ok {
@@ -195,6 +204,7 @@ func orderTable(f *ssa.Function, isA, isB func(ssa.Value) bool, res int) (possib
 }
 
 func orderTableAssume(f *ssa.Function, isA, isB func(ssa.Value) bool, res int, assume map[ssa.Value]bool) (possible [3]int, ok bool) {
+	enterScan(f)
 	ok = true
 	for o := ordLT; o <= ordGT; o++ {
 		e := &ordEval{isA: isA, isB: isB, ord: o, assume: assume}
@@ -317,6 +327,7 @@ func boolTable(f *ssa.Function, atoms []atomPred, event func(ssa.Instruction) bo
 
 // boolTableFrom: the table over the paths that start right after `start` (nil: function entry).
 func boolTableFrom(f *ssa.Function, start ssa.Instruction, atoms []atomPred, event func(ssa.Instruction) bool) (map[int]boolOutcome, bool) {
+	enterScan(f)
 	out := map[int]boolOutcome{}
 	ok := true
 	n := len(atoms)
@@ -353,8 +364,14 @@ func boolTableFrom(f *ssa.Function, start ssa.Instruction, atoms []atomPred, eve
 					}
 				}
 				if x.Op == token.MUL {
-					if s := loadedValue(x); s != nil {
+					if s := resolveLoad(x); s != ssa.Value(x) {
 						return eval(s, pred, d+1)
+					}
+				}
+			case *ssa.Call:
+				if d < 8 {
+					if t := evalPredicateCall(x, func(v ssa.Value, p *ssa.BasicBlock) tri { return eval(v, p, d+1) }); t != triUnknown {
+						return t
 					}
 				}
 			case *ssa.Phi:
@@ -503,6 +520,7 @@ func boolTableFrom(f *ssa.Function, start ssa.Instruction, atoms []atomPred, eve
 // atoms the set of values the resIdx-th (boolean) result can take
 // (bit 1: false, bit 2: true).
 func boolReturnTable(f *ssa.Function, atoms []atomPred, resIdx int) (map[int]int, bool) {
+	enterScan(f)
 	out := map[int]int{}
 	ok := true
 	n := len(atoms)
@@ -539,8 +557,14 @@ func boolReturnTable(f *ssa.Function, atoms []atomPred, resIdx int) (map[int]int
 					}
 				}
 				if x.Op == token.MUL {
-					if s := loadedValue(x); s != nil {
+					if s := resolveLoad(x); s != ssa.Value(x) {
 						return eval(s, pred, d+1)
+					}
+				}
+			case *ssa.Call:
+				if d < 8 {
+					if t := evalPredicateCall(x, func(v ssa.Value, p *ssa.BasicBlock) tri { return eval(v, p, d+1) }); t != triUnknown {
+						return t
 					}
 				}
 			case *ssa.Phi:
@@ -608,6 +632,7 @@ func boolReturnTable(f *ssa.Function, atoms []atomPred, resIdx int) (map[int]int
 // the path (so a condition stored in a variable, `ok := a && b`, is evaluated on what it was computed from);
 // conditions that are not functions of the atoms are explored both ways.
 func boolValueAt(f *ssa.Function, site ssa.Instruction, v ssa.Value, atoms []atomPred) (map[int]int, bool) {
+	enterScan(f)
 	out := map[int]int{}
 	okAll := true
 	n := len(atoms)
@@ -645,8 +670,24 @@ func boolValueAt(f *ssa.Function, site ssa.Instruction, v ssa.Value, atoms []ato
 					}
 				}
 				if y.Op == token.MUL {
-					if s := loadedValue(y); s != nil {
+					if s := resolveLoad(y); s != ssa.Value(y) {
 						return eval(s, e, d+1)
+					}
+				}
+			case *ssa.Call:
+				if d < 8 {
+					t := evalPredicateCall(y, func(v ssa.Value, p *ssa.BasicBlock) tri {
+						if phi, isPhi := v.(*ssa.Phi); isPhi && p != nil {
+							for i, pb := range phi.Block().Preds {
+								if pb == p {
+									return eval(phi.Edges[i], e, d+1)
+								}
+							}
+						}
+						return eval(v, e, d+1)
+					})
+					if t != triUnknown {
+						return t
 					}
 				}
 			case *ssa.Phi:
@@ -755,6 +796,7 @@ func boolValueAt(f *ssa.Function, site ssa.Instruction, v ssa.Value, atoms []ato
 // orderReach: under each ordering of (A, B), can control reach a return satisfying isTarget? Conditions that do not
 // depend on the ordering are explored both ways (so `found && a > b`, a hoisted boolean, or nested ifs are the same).
 func orderReach(f *ssa.Function, isA, isB func(ssa.Value) bool, isTarget func(*ssa.Return) bool) (reach [3]bool, ok bool) {
+	enterScan(f)
 	ok = true
 	for o := ordLT; o <= ordGT; o++ {
 		e := &ordEval{isA: isA, isB: isB, ord: o}
@@ -797,4 +839,135 @@ func orderReach(f *ssa.Function, isA, isB func(ssa.Value) bool, isTarget func(*s
 		}
 	}
 	return
+}
+
+// evalPredicateCall: the boolean a plain call of a local predicate answers (a closure, or a helper that did not
+// exist at the pinned commit, with one boolean result) under the caller's evaluator: the predicate's body is
+// walked from its entry, every branch condition must evaluate (otherwise unknown), and the value returned on that
+// path is evaluated. Single-expression predicates are the one-block case.
+func evalPredicateCall(call *ssa.Call, ev func(v ssa.Value, pred *ssa.BasicBlock) tri) tri {
+	if call.Call.IsInvoke() {
+		return triUnknown
+	}
+	g := call.Call.StaticCallee()
+	if g == nil || !inlinable(g) || len(g.Blocks) == 0 || g.Signature.Results().Len() != 1 {
+		return triUnknown
+	}
+	if bt, ok := g.Signature.Results().At(0).Type().Underlying().(*types.Basic); !ok || bt.Kind() != types.Bool {
+		return triUnknown
+	}
+	// pure?
+	for _, b := range g.Blocks {
+		for _, in := range b.Instrs {
+			switch in.(type) {
+			case *ssa.Store, *ssa.MapUpdate, *ssa.Send, *ssa.Go, *ssa.Defer, *ssa.Panic:
+				return triUnknown
+			}
+		}
+	}
+	// walk the body; a branch condition the evaluator cannot decide is explored both ways, and the answer is
+	// definite when every explored path returns the same truth
+	type env map[*ssa.Phi]ssa.Value
+	evalV := func(v ssa.Value, e env) tri {
+		neg := false
+		for d := 0; d < 8; d++ {
+			base, n := stripNotRaw(v)
+			if n {
+				neg = !neg
+			}
+			v = base
+			phi, isPhi := v.(*ssa.Phi)
+			if !isPhi {
+				break
+			}
+			op, bound := e[phi]
+			if !bound {
+				break
+			}
+			v = op
+		}
+		t := ev(v, nil)
+		if neg {
+			switch t {
+			case triTrue:
+				return triFalse
+			case triFalse:
+				return triTrue
+			}
+		}
+		return t
+	}
+	seenT, seenF, seenU := false, false, false
+	budget := 64
+	var walk func(b, pred *ssa.BasicBlock, e env, depth int)
+	walk = func(b, pred *ssa.BasicBlock, e env, depth int) {
+		if budget <= 0 || depth > 40 {
+			seenU = true
+			return
+		}
+		budget--
+		if pred != nil {
+			ne := env{}
+			for k, v := range e {
+				ne[k] = v
+			}
+			for _, in := range b.Instrs {
+				phi, isPhi := in.(*ssa.Phi)
+				if !isPhi {
+					break
+				}
+				for i, pb := range b.Preds {
+					if pb == pred {
+						op := phi.Edges[i]
+						if q, isQ := op.(*ssa.Phi); isQ {
+							if r, ok := e[q]; ok {
+								op = r
+							}
+						}
+						ne[phi] = op
+					}
+				}
+			}
+			e = ne
+		}
+		switch t := b.Instrs[len(b.Instrs)-1].(type) {
+		case *ssa.Return:
+			if len(t.Results) != 1 {
+				seenU = true
+				return
+			}
+			switch evalV(t.Results[0], e) {
+			case triTrue:
+				seenT = true
+			case triFalse:
+				seenF = true
+			default:
+				seenU = true
+			}
+		case *ssa.Jump:
+			walk(b.Succs[0], b, e, depth+1)
+		case *ssa.If:
+			switch evalV(t.Cond, e) {
+			case triTrue:
+				walk(b.Succs[0], b, e, depth+1)
+			case triFalse:
+				walk(b.Succs[1], b, e, depth+1)
+			default:
+				walk(b.Succs[0], b, e, depth+1)
+				walk(b.Succs[1], b, e, depth+1)
+			}
+		default:
+			seenU = true
+		}
+	}
+	walk(g.Blocks[0], nil, env{}, 0)
+	switch {
+	case seenU || (seenT && seenF):
+		return triUnknown
+	case seenT:
+		return triTrue
+	case seenF:
+		return triFalse
+	}
+	return triUnknown
 }
